@@ -184,6 +184,7 @@ struct Top final : ex::rcv_base {
 void run_pipeline(int a1, int a2, int consumer) {
   ex::Ctx ctx; ex::g = &ctx;
   ctx.leaves.resize(2);
+  ctx.sched_honours_stop = vmcrt::arg(2, 0) != 0;   // schedulers of via_stream / on_stream answer done once stop was requested
   ctx.configure = [&](ex::LeafInfo& L) { L.outcome = 'V'; L.mode = Mode::Deferred; };   // take_until triggers: deferred value
   Src s;
   s.len = vmc::choose(4);
